@@ -46,13 +46,15 @@ package dns
 //@   exit told: sends() == s0 + 1
 //@   assert at "c <- &Envelope{nil, err}" readerr: err != nil && err == callres("ReadMsg", 1)
 
+// RFC 1982 serial number arithmetic on 32 bits: a is newer than b
+//@ spec sernewer(a int, b int) bool = (a - b + 4294967296) % 4294967296 >= 1 && (a - b + 4294967296) % 4294967296 <= 2147483647
 // IXFR reader: same admission rules on every message; the transfer ends with the single-SOA "up to date"
 // answer, or when the server's serial has been seen twice in AXFR style or three times in IXFR style
 //@ func (*Transfer).inIxfr [C15 C11:timers]
 //@   opt no-safety
 //@   requires t != nil && q != nil
-//@   assert at "c <- &Envelope{in.Answer, nil}@1" uptodate: q.Id == in.Id && in.Rcode == 0 && n == 0 && callres("isSOAFirst") && qser >= serial
-//@   assert at "t.tsigTimersOnly = true" behind: n == 0 ==> qser < serial
+//@   assert at "c <- &Envelope{in.Answer, nil}@1" uptodate: q.Id == in.Id && in.Rcode == 0 && n == 0 && callres("isSOAFirst") && !sernewer(serial, qser)
+//@   assert at "t.tsigTimersOnly = true" behind: n == 0 ==> sernewer(serial, qser)
 //@   assert at "c <- &Envelope{in.Answer, nil}@2" done: q.Id == in.Id && in.Rcode == 0 && ((axfr && n == 2) || n == 3)
 //@   assert at "c <- &Envelope{in.Answer, nil}@3" more: q.Id == in.Id && in.Rcode == 0 && n < 3 && !(axfr && n == 2)
 //@   assert at "c <- &Envelope{in.Answer, nil}@2" timers2: t.tsigTimersOnly
